@@ -34,6 +34,10 @@ def cases(tier, seed):
             for order in (orders if tier == "thorough" else rnd.sample(orders, 3)):
                 yield {"kind": "posterior", "model": model, "pattern": pat, "order": order, "fast_pred_var": fpv, "lik": rnd.choice(["gauss", "fixed"]) if model != "mt" else "mt",
                        "n": rnd.choice([5, 8]), "rank": rnd.choice([0, 1, 2]), "fillvalue_target": rnd.random() < 0.25, "seed": rnd.randrange(10**6)}
+        # the policies together with other features that have prediction code of their own
+        for var, pat, fpv in itertools.product(["linear_mean", "fixed+learn", "kiss", "rff", "linear_kernel", "iterative"], ["first", "interior", "random50"], [False, True]):
+            yield {"kind": "posterior", "model": "single", "pattern": pat, "order": rnd.choice(orders), "fast_pred_var": fpv, "lik": "gauss", "variant": var, "n": rnd.choice([6, 9]), "rank": 0,
+                   "fillvalue_target": False, "seed": rnd.randrange(10**6)}
         for pat, model in itertools.product(PATTERNS, ["single", "batch", "mt"]):
             yield {"kind": "mll", "model": model, "pattern": pat, "lik": "gauss" if model != "mt" else "mt", "n": rnd.choice([5, 8]), "rank": rnd.choice([0, 1]), "seed": rnd.randrange(10**6)}
         for pat, pol, b in itertools.product(PATTERNS, ["mask", "fill"], [[], [2]]):
@@ -131,7 +135,21 @@ def _build(case, g):
             lik = gpytorch.likelihoods.FixedNoiseGaussianLikelihood(noise=util.rand(g, *b, n) * 0.3 + 0.05, batch_shape=torch.Size(b))
         else:
             lik = gpytorch.likelihoods.GaussianLikelihood(batch_shape=torch.Size(b))
-        model = util.GP(X, y, lik, util.build_mean("constant", 2, b), util.build_kernel(kern, 2, b))
+        var = case.get("variant")
+        mean_mod = util.build_mean("linear" if var == "linear_mean" else "constant", 2, b)
+        if var == "fixed+learn":
+            lik = gpytorch.likelihoods.FixedNoiseGaussianLikelihood(noise=util.rand(g, *b, n) * 0.3 + 0.05, learn_additional_noise=True, batch_shape=torch.Size(b))
+        K = gpytorch.kernels
+        if var == "kiss":
+            kmod = K.ScaleKernel(K.GridInterpolationKernel(K.RBFKernel(), grid_size=10, num_dims=2, grid_bounds=[(-3.5, 3.5), (-3.5, 3.5)]))
+            X = X.clamp(-3.0, 3.0)
+        elif var == "rff":
+            kmod = K.ScaleKernel(K.RFFKernel(num_samples=6, num_dims=2))
+        elif var == "linear_kernel":
+            kmod = K.ScaleKernel(K.LinearKernel())
+        else:
+            kmod = util.build_kernel(kern, 2, b)
+        model = util.GP(X, y, lik, mean_mod, kmod)
         miss = torch.zeros(*b, n, dtype=torch.bool)
         _, fill = _mask(case["pattern"], g, (n,))
         if b:
@@ -209,19 +227,30 @@ def _posterior(case, ctx, g):
                 mflat = miss.any(0, keepdim=True).expand_as(miss)
         ref_m, ref_c = _dense_ref(model, lik, X, y, mflat, xs, mt)
         try:
-            with S.observation_nan_policy(pol), S.fast_pred_var(case["fast_pred_var"]), torch.no_grad():
+            import contextlib
+
+            with contextlib.ExitStack() as st:
+                if case.get("variant") == "iterative":
+                    for c_ in (S.max_cholesky_size(0), S.cg_tolerance(1e-10), S.eval_cg_tolerance(1e-10), S.max_cg_iterations(3000), S.max_root_decomposition_size(100)):
+                        st.enter_context(c_)
+                st.enter_context(S.observation_nan_policy(pol))
+                st.enter_context(S.fast_pred_var(case["fast_pred_var"]))
+                st.enter_context(torch.no_grad())
                 out = model(xs)
                 mean, cov, var = out.mean, out.covariance_matrix, out.variance
         except Exception as e:
             ctx.fail("call_raised", f"model(x*) under policy {pol} raised {type(e).__name__}: {str(e)[:150]}", "raise", exc=type(e).__name__, policy=pol, step=step)
             continue
-        cls = f"{case['model']}:{pol}:{'love' if case['fast_pred_var'] else 'exact'}"
-        ctx.expect("no_nan_leaves", bool(torch.isfinite(mean).all() and torch.isfinite(cov).all()), f"NaN in the posterior under policy {pol}", where="model(x*)")
-        ctx.close("posterior_mean", mean.reshape(ref_m.shape), ref_m, "direct", cls=cls + ":mean", policy=pol, step=step, quantity="mean")
-        ctx.close("posterior_covar", cov.reshape(ref_c.shape), ref_c, "loose" if case["fast_pred_var"] else "direct", cls=cls + ":covar", policy=pol, step=step, quantity="covar",
-                  love=case["fast_pred_var"])
-        ctx.close("posterior_variance", var.reshape(ref_m.shape), torch.diagonal(ref_c, dim1=-2, dim2=-1).clamp_min(1e-10), "loose" if case["fast_pred_var"] else "direct", cls=cls + ":var",
-                  policy=pol, step=step, quantity="covar", love=case["fast_pred_var"])
+        vr = case.get("variant")
+        cls = f"{case['model']}:{pol}:{'love' if case['fast_pred_var'] else 'exact'}" + (":" + vr if vr else "")
+        mtol = "iter" if vr == "iterative" else ((1e-6, 1e-6) if vr in ("kiss", "rff") else "direct")
+        ctol_ = ("lanczos" if case["fast_pred_var"] else "iter") if vr == "iterative" else ("loose" if case["fast_pred_var"] else ((1e-6, 1e-6) if vr in ("kiss", "rff") else "direct"))
+        ctx.expect("no_nan_leaves", bool(torch.isfinite(mean).all() and torch.isfinite(cov).all()), f"NaN in the posterior under policy {pol}", where="model(x*)", variant=vr)
+        ctx.close("posterior_mean", mean.reshape(ref_m.shape), ref_m, mtol, cls=cls + ":mean", policy=pol, step=step, quantity="mean", variant=vr)
+        ctx.close("posterior_covar", cov.reshape(ref_c.shape), ref_c, ctol_, cls=cls + ":covar", policy=pol, step=step, quantity="covar",
+                  love=case["fast_pred_var"], variant=vr)
+        ctx.close("posterior_variance", var.reshape(ref_m.shape), torch.diagonal(ref_c, dim1=-2, dim2=-1).clamp_min(1e-10), ctol_, cls=cls + ":var",
+                  policy=pol, step=step, quantity="covar", love=case["fast_pred_var"], variant=vr)
         results.setdefault(pol, []).append((mean, cov))
     # the result is the same whichever policy was used first on the same model object (history)
     for pol, lst in results.items():
@@ -229,7 +258,8 @@ def _posterior(case, ctx, g):
             ctx.close("order_independent", torch.cat([m2.reshape(-1), c2.reshape(-1)]), torch.cat([lst[0][0].reshape(-1), lst[0][1].reshape(-1)]), (1e-9, 1e-9), cls="order:" + pol)
     # a fantasy model created under the policy conditions on the OBSERVED data plus the fantasy data (also when the fantasy
     # targets themselves miss an entry)
-    if case["model"] == "single" and case.get("lik") == "gauss" and bool(miss.any()):
+    plain = case.get("variant") in (None, "linear_mean", "linear_kernel")
+    if case["model"] == "single" and case.get("lik") == "gauss" and bool(miss.any()) and plain:
         pol = case["order"][-1]
         Xf, yf = util.randn(g, 3, 2), util.randn(g, 3)
         try:
@@ -249,7 +279,7 @@ def _posterior(case, ctx, g):
             ctx.fail("call_raised", f"get_fantasy_model under policy {pol} raised {type(e).__name__}: {str(e)[:150]}", "raise", exc=type(e).__name__, policy=pol, fantasy=True)
     # the same model next gets targets with the SAME observed values but another pattern of missing entries (targets-only
     # set_train_data, default strictness): its predictions follow the new pattern
-    if not mt and case["pattern"] != "none":
+    if not mt and case["pattern"] != "none" and plain:
         miss2 = torch.roll(miss, 1, -1)
         if bool(miss2.any()) and not bool(miss2.all(-1).any()) and not torch.equal(miss2, miss):
             yn2 = y.clone()
@@ -375,4 +405,15 @@ def _lik_terms(case, ctx, g):
     ctx.cell({k: v_ for k, v_ in case.items() if k != "seed"}, nontrivial=bool(miss.any()))
 
 
-MATCHERS = {}
+def _specialised_strategy(case, fl):
+    """the NaN policies live in DefaultPredictionStrategy only: KISS-GP (interpolated strategy) lets NaN through, the RFF
+    strategy's covariance ignores the missing pattern"""
+    v = case.get("variant")
+    if v == "kiss":
+        return fl["monitor"] in ("no_nan_leaves", "posterior_mean", "posterior_covar", "posterior_variance", "order_independent")
+    if v == "rff":
+        return fl["monitor"] in ("posterior_covar", "posterior_variance", "order_independent")
+    return False
+
+
+MATCHERS = {"C16-specialised-strategies-ignore-nan-policy": _specialised_strategy}
